@@ -71,6 +71,19 @@ theorem freq_ascending_partial {K : Type} [Field K] [LinearOrder K] [IsStrictOrd
     out.vals.Pairwise fun a b => re a < re b :=
   sort_ascending_partial_aux re im vals vecs out h hsep
 
+/-- How far the order can be off (quantitative companion of the known finding on the rounded sort key): after the
+`if sort:` block a frequency never precedes one that is smaller by MORE than 0.1. -/
+theorem freq_ascending_within_tenth {K : Type} [Field K] [LinearOrder K] [IsStrictOrderedRing K] [FloorRing K]
+    {F : Type} [Zero F] (re im : F → K) (vals : List F) (vecs : Block F) (out : Out F F)
+    (h : sortStep re im vals vecs = .ok out) :
+    out.vals.Pairwise fun a b => re a ≤ re b + 1 / 10 := by
+  refine (sort_ascending_in_rounded_key re im vals vecs out h).imp ?_
+  intro a b hab
+  have hle : (rint (re a * 10) : K) ≤ (rint (re b * 10) : K) := by
+    exact_mod_cast lexLE_fst hab
+  have ha := (rint_near (re a * 10)).1
+  have hb := (rint_near (re b * 10)).2
+  linarith
 /-- rounding facts behind the two statements above: `rint` (round half to even) is monotone, and separates
 arguments more than one unit apart. -/
 theorem rint_monotone_and_separating {K : Type} [Field K] [LinearOrder K] [IsStrictOrderedRing K]
